@@ -1,3 +1,5 @@
+\* 2 Next callers + 1 SetFloor caller, one call each, generator values 1..4, both generator
+\* assumptions.  Measured: 248,380 states generated, 81,623 distinct, depth 20 (43 s, 4 workers, loaded box).
 SPECIFICATION Spec
 CONSTANTS
   NextProcs = {"c1", "c2"}
